@@ -73,7 +73,14 @@ def run_one(tape, cfg):
         if mode == "profiler":
             out.probe("profiler_runs")
             expected_rows = []
-            with Profiler() as prof:
+            import contextlib
+
+            two = tape.chance(1, 3, "two_profilers")
+            if two:
+                out.probe("two_profilers_active")
+            with contextlib.ExitStack() as pstack:
+                prof = pstack.enter_context(Profiler())
+                prof2 = pstack.enter_context(Profiler()) if two else None
                 for ci in range(ncalls):
                     with tape.span("call"):
                         req_json = gg.gen_request(tape, spec)
@@ -111,6 +118,12 @@ def run_one(tape, cfg):
                     out.violate("profiler_record_mismatch",
                                 f"profiler rows differ from the execution history: missing {missing[:4]} "
                                 f"extra {extra[:4]} (calls {plan})")
+                if prof2 is not None and out.status != "violation":
+                    got2 = sorted((repr(r.key), r.start_time, r.end_time) for r in prof2.results)
+                    if got2 != want:
+                        out.violate("profiler_record_mismatch",
+                                    f"second profiler active in the same calls: {len(got2)} rows, execution "
+                                    f"history has {len(want)} (calls {plan})")
                 for r in prof.results:
                     if not (r.start_time <= r.end_time):
                         out.violate("profiler_times", f"start {r.start_time} > end {r.end_time} for {r.key!r}")
@@ -179,6 +192,23 @@ def run_one(tape, cfg):
                             out.violate("cache_changes_value",
                                         f"with Cache active got {obs.value!r}, without {expected!r} "
                                         f"(calls {plan})")
+                            break
+                        # a key served from the cache is a literal for this call: tasks that only it
+                        # needed must not run
+                        need2, todo = set(), list(gg.flatten_request(request))
+                        while todo:
+                            k = todo.pop()
+                            if k in need2:
+                                continue
+                            need2.add(k)
+                            if k not in cached_before:
+                                todo.extend(deps[k])
+                        ran = {e[3] for e in obs.log if e[0] == "cb" and e[1] == "rec" and e[2] == "pretask"}
+                        extra = ran - (need2 - cached_before)
+                        if extra:
+                            out.violate("cached_key_recomputed_or_ancestors_ran",
+                                        f"tasks {sorted(map(repr, extra))} ran although the cache held "
+                                        f"{sorted(map(repr, cached_before & need2))} (calls {plan})")
                             break
             finally:
                 cachey.DECIDER[0] = None
